@@ -21,6 +21,7 @@ import warnings
 import numpy as np
 
 import common as C
+from gen_emp import SharedArg
 import corr_C06 as G
 
 INF = float("inf")
@@ -99,6 +100,24 @@ def container_levels(rep, d, a, b, c, o, cv, inner, worst, why):
     returns True if a clause fails"""
     reg = G.regime_of(a, b, o)
     if reg == "point":
+        # the point mass: ppf is constantly a, whatever container the levels 0 and 1 arrive in (Python ints, bools, integer arrays)
+        forms = [("pyint", 0), ("pyint", 1), ("pybool", True), ("pyint_list", [0, 1]), ("int64_array", np.arange(2)), ("uint8_array", np.array([1, 0], dtype=np.uint8)),
+                 ("bool_array", np.array([False, True])), ("int32_matrix", np.array([[0, 1], [1, 0]], dtype=np.int32))]
+        for lab, qv in forms:
+            rep.count("point_mass:q_container=" + lab)
+            try:
+                with np.errstate(all="ignore"):
+                    out = d.ppf(qv)
+            except Exception as e:  # noqa: BLE001
+                rep.violate(what=f"ppf of the point mass raised for levels given as {lab}", error=repr(e), input=inp_of(a, b, c, o, cv),
+                            call="NoisyQuadraticDistribution.ppf", found_by=why)
+                return True
+            vals = np.atleast_1d(np.asarray(out, dtype=float))
+            if np.shape(out) != np.shape(qv) or not all(float(v) == float(a) for v in vals.ravel()):
+                rep.violate(what="ppf of the point mass a = b, o = 0 is not constantly a (levels 0 / 1 given in an integer or boolean container)",
+                            input=dict(inp_of(a, b, c, o, cv), q=repr(qv), q_container=lab), observed=[float(v) for v in vals.ravel()], expected=float(a),
+                            call=f"NoisyQuadraticDistribution({a!r}, {b!r}, {c}, {o!r}, {cv}).ppf({qv!r})", found_by=why)
+                return True
         return False
     lo_want, hi_want = (-INF, INF) if reg in ("nothing", "normal") else (a, b)
     with np.errstate(all="ignore"):
@@ -374,14 +393,20 @@ def run(seed, tier, replay=None):
         try:
             d = NQ(a, b, c, o, cv)
             with np.errstate(all="ignore"):
-                iv = np.asarray(d.ppf(np.array(qs)), dtype=float)
+                Qsh = SharedArg(qs)          # the caller's array of levels: bit-identical after the call
+                iv = np.asarray(d.ppf(Qsh.obj), dtype=float)
+                dmg_q = Qsh.changed_by("ppf(qs)")
+                rep.count("shared_query_array:ppf(float64 qs)")
+                if dmg_q:
+                    rep.violate(what="ppf modified the caller's array of levels in place", input=dict(base, qs=[C.fhex(float(v)) for v in qs]), observed=dmg_q,
+                                call="q = np.array(...); NoisyQuadraticDistribution.ppf(q); q")
                 s0 = d.ppf(qs[0])
                 m2 = d.ppf(np.array(qs[:4]).reshape(2, 2)) if len(qs) >= 4 else None
                 e0 = d.ppf(np.array([]))
         except Exception as e:
             rep.violate(what="ppf raised on q in [0, 1]", error=repr(e), input=base, call="NoisyQuadraticDistribution.ppf")
             continue
-        if di % 3 == 0:
+        if di % 3 == 0 or reg == "point":      # (every point mass: it is rare in the stream and cheap)
             container_levels(rep, d, a, b, c, o, cv, [float(q) for q in qs if 0.0 < q < 1.0], worst, "all")
         # ---- shapes
         if di % 4 == 0:
